@@ -393,6 +393,68 @@ theorem C15_rows_rev (m : Meta) (q : Query α) (rc : RC α) (w : W α) (hq : q.w
     ∀ e r, sel e w' r = sel e w r :=
   C15_rows_rev_fixed Cfg.pinned rfl m q rc w hq hp hd
 
+/-! ## all sixteen spellings, and statements with several time-series joins -/
+
+/-- T15.1 for one join whose time condition is spelled `tl` (column first, or constant / LATEST first), stated
+on the user's own WHERE `w` -/
+def RowsSpecL (cfg : Cfg) (m : Meta) (q : Query α) (tl : TL α) (w : W α) : Prop :=
+  ∃ pl, planTS cfg m q = .ok pl ∧ ∀ (e : Env α) (T : List (Row α)), envOk e m.nG = true →
+    ∃ L, WindowSpecL m.window e m.nG tl w T L ∧
+      (fetched e T pl.selects).Perm (condRowsL e m.nG tl w T ++ L)
+
+/-- **T15.1 on the pinned tree for every spelling of the time condition**: `t op c`, `c op t`, BETWEEN,
+`t > LATEST`, `LATEST < t`, `t = LATEST`, `LATEST = t`, in any AND-nesting with partition filters: the fetched
+rows are the rows satisfying the condition (read with its meaning `tl.cls`) plus a valid window before its
+lower bound, restricted by the other conjuncts of the user's WHERE. -/
+theorem C15_rows_spellings (m : Meta) (q : Query α) (tl : TL α) (w : W α) (hq : q.whereC = some w)
+    (hp : plain q) (hd : tcTree m.nG tl.toW w = true) : RowsSpecL Cfg.pinned m q tl w := by
+  cases tl with
+  | fwd tc =>
+    obtain ⟨pl, h1, h2⟩ := C15_rows_tc Cfg.pinned m q tc w hq hp hd
+    refine ⟨pl, h1, fun e T hok => ?_⟩
+    obtain ⟨L, hL, hperm⟩ := h2 e T hok
+    rw [hq] at hL hperm
+    exact ⟨L, hL, hperm⟩
+  | rev rc =>
+    obtain ⟨heq, ⟨pl, h1, h2⟩, _⟩ := C15_rows_rev m q rc w hq hp hd
+    refine ⟨pl, heq.trans h1, fun e T hok => ?_⟩
+    obtain ⟨L, hL, hperm⟩ := h2 e T hok
+    have hb : ∀ r, base e m.nG (some rc.mirror) (some (replaceTF rc.toW rc.mirror.toW w)) r
+        = baseL e m.nG (.rev rc) w r := by
+      intro r
+      simp only [base, baseL, restSelO, Option.map, Option.getD, TL.toW]
+      rw [rc_restSel rc e r w hd]
+    have hc : condRows e m.nG (some rc.mirror) (some (replaceTF rc.toW rc.mirror.toW w)) T
+        = condRowsL e m.nG (.rev rc) w T := by
+      simp only [condRows, condRowsL, TL.cls, hb]
+    refine ⟨L, ?_, by rw [← hc]; exact hperm⟩
+    simp only [WindowSpec, WindowSpecL, Option.bind, TL.cls] at hL ⊢
+    cases hbf : rc.mirror.before with
+    | none => rw [hbf] at hL; exact hL
+    | some bf =>
+      rw [hbf] at hL
+      have : candRows e m.nG (some rc.mirror) (some (replaceTF rc.toW rc.mirror.toW w)) bf T
+          = candRowsL e m.nG (.rev rc) w bf T := by
+        simp only [candRows, candRowsL, hb]
+      show IsLastW m.window (candRowsL e m.nG (.rev rc) w bf T) L
+      rw [← this]; exact hL
+
+/-- a statement with several time-series joins (the sides of a UNION, joins nested in sub-selects, the source
+of INSERT / CREATE TABLE): the planner plans every join by its own call of `plan_timeseries_predictor` with its
+own predictor metadata and its own WHERE -/
+def planStmt (cfg : Cfg) (joins : List (Meta × Query α)) : List (Res α) :=
+  joins.map (fun j => planTS cfg j.1 j.2)
+
+/-- **per-join row-set property for multi-join statements**: the plan of the i-th join is the plan of that join
+alone (so it has its own partition query and fetch selects, whatever the other joins are), and it has the
+row-set property of its own WHERE -/
+theorem C15_rows_stmt (joins : List (Meta × Query α)) (i : Nat) (m : Meta) (q : Query α) (tl : TL α) (w : W α)
+    (hi : joins[i]? = some (m, q)) (hq : q.whereC = some w) (hp : plain q)
+    (hd : tcTree m.nG tl.toW w = true) :
+    (planStmt Cfg.pinned joins)[i]? = some (planTS Cfg.pinned m q) ∧ RowsSpecL Cfg.pinned m q tl w := by
+  refine ⟨?_, C15_rows_spellings m q tl w hq hp hd⟩
+  simp [planStmt, hi]
+
 /-! ## NULL partition values: what the executor has to provide -/
 
 /-- with plain SQL equality for `col = $var[col]` a partition record that contains a NULL group value
@@ -509,6 +571,9 @@ example : Dom (α := Int) 1 (some .eqLatest)
 example : Dom (α := String) 1 (some (.ge "2020-01-01"))
     (some (.bin .and (TC.ge "2020-01-01").toW (.bin .eq (.ident (.grp 0)) (.const "nyc")))) = true := by decide
 example : (VOrd.le "2020-01-02" "2020-01-10" : Bool) = true := by decide
+/-- `LATEST < t` next to a partition filter is in the domain of `C15_rows_spellings` -/
+example : tcTree (α := Int) 1 (TL.rev .ltLatest).toW
+    (.bin .and (.bin .eq (.ident (.grp 0)) (.const 1)) (RC.ltLatest).toW) = true := by decide
 example : plain (α := Int) { whereC := none, limit := some 7 } := by decide
 example : envOk (α := Int) ⟨[some 1, none], true⟩ 2 = true ∧ envOk (α := Int) ⟨[some 1, some 2], false⟩ 2 = true := by
   decide
